@@ -5,6 +5,8 @@
 -/
 import TdVerif.Lemmas.C11Reduce
 import TdVerif.Lemmas.C11Rebuild
+import TdVerif.Lemmas.C11StateDict
+import TdVerif.Lemmas.C11ToDict
 import TdVerif.Gen.Dtypes
 import TdVerif.Lemmas.C11Pytree
 
@@ -363,6 +365,37 @@ theorem pytree_lock_counterexample :
     let t := PT.node [2] none none true [("a", .leaf 0)]
     (unflatten (flatten t).2 (flatten t).1).map (·.1) = some (PT.node [2] none none false [("a", .leaf 0)]) := by
   simp [flatten, flattenKids, unflatten, unflattenKids]
+
+/-! ## 3c. state_dict -/
+
+/-- `dest.load_state_dict(td.state_dict())` with `dest = td.apply(zeros_like)` gives back `td` — keys in order, nesting,
+    batch sizes, devices, values, at every depth — for every nested tensordict with distinct keys. (Names and lock
+    state are the destination's own: the state dict records neither.) -/
+theorem state_dict_roundtrip (t : PT) (h : NodupKeys t) : loadSD (stateDict t) (zerosLike t) = some t :=
+  stateDict_roundtrip_aux t h
+
+/-- what a state dict does not carry: loaded into a destination without names / unlocked, the result has no names /
+    is unlocked; and a key set that differs is refused (`strict=True`) -/
+theorem state_dict_names_lock_counterexample :
+    let t := PT.node [2] (some ["t"]) none true [("a", .leaf 7)]
+    loadSD (stateDict t) (PT.node [2] none none false [("a", .leaf 0)]) = some (PT.node [2] none none false [("a", .leaf 7)])
+      ∧ loadSD (stateDict t) (PT.node [2] none none false [("b", .leaf 0)]) = none := by
+  simp [stateDict, stateDictKids, loadSD, loadSDEntries, sameKeys, setKid]
+
+/-! ## 3d. to_dict / from_dict -/
+
+/-- `TensorDict.from_dict(td.to_dict(), batch_size=b, device=d, names=n)` gives back `td` (unlocked) for every nested
+    tensordict **all of whose (sub-)tensordicts have batch size `b`, names `n` and device `d`** — the plain dict carries
+    none of the three, `from_dict` applies the root's to every level. -/
+theorem to_dict_roundtrip (b : List Nat) (n : Option (List String)) (d : Option String) (t : PT) (h : Uniform b n d t) :
+    fromDict b n d (toDict t) = unlockAll t := fromDict_toDict b n d t h
+
+/-- a sub-tensordict with more batch dims than its parent comes back with the parent's batch size
+    (known finding `C11-to-dict-nested-batch`, re-derived by the check) -/
+theorem to_dict_nested_batch_counterexample :
+    let t := PT.node [3] none none false [("n", .node [3, 2] none none false [("x", .leaf 1)])]
+    fromDict [3] none none (toDict t) = PT.node [3] none none false [("n", .node [3] none none false [("x", .leaf 1)])] := by
+  simp [toDict, toDictKids, fromDict, fromDictKids]
 
 /-! ## 4. the dtype tables (regenerated from the source on every run) -/
 
